@@ -281,6 +281,8 @@ def _const_leaf(ctx, b, e, depth=0):
             return _const_leaf(ctx, b, e[2][0], depth + 1)
         # T::default()
         m = re.match(r"<(.*) as std::default::Default>::default", e[1])
+        if m and m.group(1) in ("u8", "u16", "u32", "u64", "usize", "i8", "i16", "i32", "i64", "isize", "bool"):
+            return 0            # the standard library's Default of a primitive integer / bool (a derived Default calls it)
         if m:
             f = [x for x in ctx.facts.fns if x["path"] == "<%s as std::default::Default>::default" % m.group(1)]
             if f:
